@@ -199,6 +199,7 @@ func c26Seqs(thorough bool) []Inst {
 	for o := int64(1); o <= 11; o++ {
 		add(o, 0, 0)
 	}
+	add(13, 0, 0)
 	// sleep cycles: sleep, sleep again, back to active
 	add(2, 11, 0)
 	add(4, 11, 11)
@@ -233,7 +234,7 @@ func init() {
 		Reach:   []string{"C26.ops_done", "C26.slept", "C26.woke_by_connect"},
 		Bounds: map[string]string{
 			"system":    "the real client (real Dial, receive loop, keep-alive loop, transactions), the real gateway session run() and a model MQTT 3.1.1 broker joined by a lossless link in virtual time; client keep-alive 60 s, RetryDelay 1 s; a client in state asleep has its radio off (what is sent to it then is lost)",
-			"sequences": "Connect, 1..3 operations, Disconnect. Operations: Register; Subscribe exact / wildcard / short / predefined (symbolic QoS 0..2) each followed by a broker message on a matching topic (symbolic QoS and payload byte; for the wildcard a burst of two on a not yet registered topic); Register+Publish / Publish short / PublishPredefined (symbolic QoS 0..2, retain, payload byte); Unsubscribe; Ping; Sleep(d = 1..3 s symbolic) with a broker message arriving meanwhile; Connect after a sleep. Quick: every single operation + 6 triples; thorough: all pairs + 14 triples",
+			"sequences": "Connect, 1..3 operations, Disconnect. Operations: Register; Subscribe exact / wildcard / short / predefined (symbolic QoS 0..2) each followed by a broker message on a matching topic (symbolic QoS and payload byte; for the wildcard a burst of two on a not yet registered topic); Register+Publish / Publish short / PublishPredefined (symbolic QoS 0..2, retain, payload byte); Unsubscribe; Subscribe + Unsubscribe of a name under a still active wildcard, followed by a broker message on it; Ping; Sleep(d = 1..3 s symbolic) with a broker message arriving meanwhile; Connect after a sleep. Quick: every single operation + 6 triples; thorough: all pairs + 14 triples",
 		},
 		Outside: []string{"longer sequences, payloads longer than one byte, loss (C16/C17), concurrent API calls"},
 	})
